@@ -22,7 +22,7 @@ func init() {
 			"index entry only after a complete data file (R5.1); every byte written to a data file is either the bounded size-1 copy or follows the hash verification (R5.2); " +
 			"copyFile reports success only after a hash comparison or for size 0 (R5.2b); no truncating open of cache files (R5.3); " +
 			"GetFile/GetBytes succeed only under size/checksum equality (R5.4); get succeeds only after rejecting short reads, foreign ids, parse errors and negative sizes (R5.5); " +
-			"nothing outside the cache package bypasses GetFile (R5.6); a failed lookup only selects recomputation (R5.7). " +
+			"nothing outside the cache package bypasses GetFile (R5.6); a failed lookup only selects recomputation (R5.7); the writer's and the reader's layout of an index entry agree: fixed-width format, total length = entrySize, separator offsets, the byte range and order of each field (R5.8). " +
 			"It does NOT decide interleavings of several processes, file-system atomicity, fsync/power loss, trim timing or GOCACHEPROG back ends.",
 		RuleText: "obligation = (rule, function::site) evaluated on the SSA CFG of /repo's current sources with must-pass-through-edge and value-origin queries; " +
 			"non-trivial = the verdict needed a path or backward-slice query (not just a lookup)",
@@ -64,6 +64,12 @@ func init() {
 				Old: "\t} else if buf != id {\n\t\treturn missing(errors.New(\"mismatched ID\"))\n\t}\n", New: "\t}\n"},
 			{Name: "get-negative-size", File: "lintcmd/cache/cache.go", Rule: "R5.5", KeyPart: "non-negative",
 				Old: "\t} else if size < 0 {\n\t\treturn missing(errors.New(\"negative size\"))\n\t}\n", New: "\t}\n"},
+			{Name: "entry-size-not-padded", File: "lintcmd/cache/cache.go", Rule: "R5.8", KeyPart: "putIndexEntry",
+				Old: "entry := fmt.Sprintf(\"v1 %x %x %20d %20d\\n\", id, out, size, time.Now().UnixNano())", New: "entry := fmt.Sprintf(\"v1 %x %x %20d %19d\\n\", id, out, size, time.Now().UnixNano())"},
+			{Name: "entry-fields-swapped", File: "lintcmd/cache/cache.go", Rule: "R5.8", KeyPart: "fields-in-reader-order",
+				Old: "entry := fmt.Sprintf(\"v1 %x %x %20d %20d\\n\", id, out, size, time.Now().UnixNano())", New: "entry := fmt.Sprintf(\"v1 %x %x %20d %20d\\n\", id, out, time.Now().UnixNano(), size)"},
+			{Name: "reader-shifted-size-field", File: "lintcmd/cache/cache.go", Rule: "R5.8", KeyPart: "get",
+				Old: "\tesize, entry := entry[1:1+20], entry[1+20:]\n", New: "\tesize, entry := entry[0:1+20], entry[1+20:]\n"},
 			{Name: "runner-bypass-getfile", File: "lintcmd/runner/runner.go", Rule: "R5.6", KeyPart: "getCachedFiles",
 				Old: "\t\t*out[i], _, err = cache.GetFile(c, id)\n\t\tif err != nil {\n\t\t\treturn err\n\t\t}\n",
 				New: "\t\tvar e cache.Entry\n\t\te, err = c.Get(id)\n\t\tif err != nil {\n\t\t\treturn err\n\t\t}\n\t\t*out[i] = c.OutputFile(e.OutputID)\n"},
@@ -600,6 +606,240 @@ func runC05(c *Ctx) {
 				return v == nil || !isErr(v) || IsNilConst(v)
 			}, nil, nilEdges)
 			c.Check(FuncKey(gcf)+"::all-lookups-must-hit#"+itoa(i), call.Pos(), t == nil, "getCachedFiles may report a hit only if every GetFile succeeded; path from a failed GetFile to a success return: %s", PathString(gcf, path))
+		}
+	})
+
+	// R5.8 ---------------------------------------------------------------
+	c.Rule("R5.8", func() {
+		c.Floor("R5.8", 6)
+		putIndex := c.Func("lintcmd/cache", "(*DiskCache).putIndexEntry")
+		entrySize := constIntOf(c, "lintcmd/cache", "entrySize")
+		hashSize := constIntOf(c, "lintcmd/cache", "HashSize")
+		// the writer's layout, from the constant format string of the Sprintf whose result is written
+		var format string
+		var fmtCall *ssa.Call
+		for _, ci := range CallsTo(putIndex, false, "fmt.Sprintf") {
+			call := ci.(*ssa.Call)
+			// its result must be what is written to the file
+			written := false
+			for _, w := range CallsTo(putIndex, false, "os.File.WriteString", "os.File.Write") {
+				if DerivesLocal(w.Common().Args[1], func(v ssa.Value) bool { return v == ssa.Value(call) }) {
+					written = true
+				}
+			}
+			if sv, ok := constStringVal(call.Call.Args[0]); ok && written {
+				format, fmtCall = sv, call
+			}
+		}
+		if fmtCall == nil {
+			c.Undecided("putIndexEntry no longer formats the entry with a constant Sprintf format that is then written")
+		}
+		// positions of literal bytes and the ranges of the verbs
+		type span struct{ lo, hi int64 }
+		var verbs []span
+		lit := map[int64]byte{}
+		var pos int64
+		okFmt := true
+		for i := 0; i < len(format); i++ {
+			ch := format[i]
+			if ch != '%' {
+				lit[pos] = ch
+				pos++
+				continue
+			}
+			j := i + 1
+			width := int64(0)
+			for j < len(format) && format[j] >= '0' && format[j] <= '9' {
+				width = width*10 + int64(format[j]-'0')
+				j++
+			}
+			if j >= len(format) {
+				okFmt = false
+				break
+			}
+			switch format[j] {
+			case 'x':
+				// an id: a [HashSize]byte array prints as 2*HashSize hex digits
+				width = 2 * hashSize
+			case 'd':
+				if width == 0 {
+					okFmt = false // variable width: the entry is not fixed-size
+				}
+			default:
+				okFmt = false
+			}
+			verbs = append(verbs, span{pos, pos + width})
+			pos += width
+			i = j
+		}
+		c.Check(FuncKey(putIndex)+"::entry-format-is-fixed-width", fmtCall.Pos(), okFmt && len(verbs) == 4, "the index entry is written with fixed-width verbs only (%q)", format)
+		c.Check(FuncKey(putIndex)+"::entry-length-equals-entrySize", fmtCall.Pos(), pos == entrySize, "the writer's format produces %d bytes, the reader requires exactly entrySize = %d", pos, entrySize)
+		// the reader's literal checks: indices compared with constants
+		readerLit := map[int64]byte{}
+		Instrs(get, false, func(in ssa.Instruction) {
+			bo, ok := in.(*ssa.BinOp)
+			if !ok || (bo.Op != token.NEQ && bo.Op != token.EQL) {
+				return
+			}
+			k, isK := ConstInt(bo.Y)
+			u, isLoad := bo.X.(*ssa.UnOp)
+			if !isK || !isLoad {
+				return
+			}
+			ia, ok := u.X.(*ssa.IndexAddr)
+			if !ok {
+				return
+			}
+			if i, ok := ConstInt(ia.Index); ok && k >= 0 && k < 256 {
+				if _, isBuf := ia.X.(*ssa.Slice); isBuf {
+					readerLit[i] = byte(k)
+				}
+			}
+		})
+		agree := len(readerLit) > 0
+		diff := ""
+		for i, b := range readerLit {
+			if lit[i] != b {
+				agree = false
+				diff = "reader expects " + string(rune(b)) + " at offset " + itoa(int(i)) + ", writer puts " + string(rune(lit[i]))
+			}
+		}
+		c.Check(FuncKey(get)+"::separators-agree-with-writer", get.Pos(), agree && len(readerLit) >= 5, "every literal byte the reader insists on is at the offset where the writer's format puts it (%d positions; %s)", len(readerLit), diff)
+		// the reader's field slices: absolute [lo,hi) of each slice of the buffer that feeds hex.Decode / ParseInt, in order
+		var absolute func(v ssa.Value) (int64, int64, bool)
+		absolute = func(v ssa.Value) (int64, int64, bool) {
+			sl, ok := v.(*ssa.Slice)
+			if !ok {
+				return 0, 0, false
+			}
+			lo, hi := int64(0), int64(-1)
+			if sl.Low != nil {
+				if k, ok := ConstInt(sl.Low); ok {
+					lo = k
+				} else {
+					return 0, 0, false
+				}
+			}
+			if sl.High != nil {
+				if k, ok := ConstInt(sl.High); ok {
+					hi = k
+				} else {
+					return 0, 0, false
+				}
+			}
+			if _, isAlloc := sl.X.(*ssa.Alloc); isAlloc {
+				if hi < 0 {
+					hi = entrySize + 1
+				}
+				return lo, hi, true
+			}
+			plo, phi, ok := absolute(sl.X)
+			if !ok {
+				return 0, 0, false
+			}
+			if hi < 0 {
+				return plo + lo, phi, true
+			}
+			return plo + lo, plo + hi, true
+		}
+		var fields []span
+		for _, ci := range Calls(get, false) {
+			call, ok := ci.(*ssa.Call)
+			if !ok {
+				continue
+			}
+			var src ssa.Value
+			switch CalleeName(&call.Call) {
+			case "encoding/hex.Decode":
+				src = call.Call.Args[1]
+			case "strconv.ParseInt":
+				src = call.Call.Args[0]
+			default:
+				continue
+			}
+			// the (outermost constant) slice of the entry buffer the argument derives from
+			var best *span
+			for x := range BackSlice(src, SliceOpts{NoMemory: true}) {
+				if lo, hi, ok := absolute(x); ok {
+					if best == nil || hi-lo < best.hi-best.lo {
+						best = &span{lo, hi}
+					}
+				}
+			}
+			if best != nil {
+				fields = append(fields, *best)
+			}
+		}
+		match := len(fields) == len(verbs)
+		for i := range fields {
+			if i < len(verbs) && (fields[i].lo != verbs[i].lo || fields[i].hi != verbs[i].hi) {
+				// numeric fields are left-padded: the reader may take the same range
+				match = false
+			}
+		}
+		c.Check(FuncKey(get)+"::field-ranges-agree-with-writer", get.Pos(), match, "the byte ranges the reader decodes (id, output id, size, time: %v) are the ranges the writer's verbs occupy (%v)", fields, verbs)
+		// the writer's arguments are (action id, output id, size, time) in that order
+		args := fmtCall.Call.Args[1]
+		order := []string{}
+		for x := range BackSlice(args, SliceOpts{}) {
+			_ = x
+		}
+		// the varargs array: stores by index
+		byIdx := map[int64]ssa.Value{}
+		for x := range BackSlice(args, SliceOpts{NoMemory: true}) {
+			al, ok := x.(*ssa.Alloc)
+			if !ok {
+				continue
+			}
+			for _, r := range *al.Referrers() {
+				ia, ok := r.(*ssa.IndexAddr)
+				if !ok {
+					continue
+				}
+				i, ok := ConstInt(ia.Index)
+				if !ok {
+					continue
+				}
+				for _, rr := range *ia.Referrers() {
+					if st, ok := rr.(*ssa.Store); ok && st.Addr == ia {
+						byIdx[i] = st.Val
+					}
+				}
+			}
+		}
+		for i := int64(0); i < int64(len(byIdx)); i++ {
+			v := byIdx[i]
+			switch {
+			case v == nil:
+				order = append(order, "?")
+			case DerivesLocal(v, func(z ssa.Value) bool {
+				p, ok := z.(*ssa.Parameter)
+				return ok && strings.HasSuffix(p.Type().String(), "cache.ActionID")
+			}):
+				order = append(order, "id")
+			case DerivesLocal(v, func(z ssa.Value) bool {
+				p, ok := z.(*ssa.Parameter)
+				return ok && strings.HasSuffix(p.Type().String(), "cache.OutputID")
+			}):
+				order = append(order, "out")
+			case DerivesLocal(v, func(z ssa.Value) bool { p, ok := z.(*ssa.Parameter); return ok && p.Type().String() == "int64" }):
+				order = append(order, "size")
+			case Derives(v, IsCallResult("time.Now")):
+				order = append(order, "time")
+			default:
+				order = append(order, "?")
+			}
+		}
+		c.Check(FuncKey(putIndex)+"::fields-in-reader-order", fmtCall.Pos(), strings.Join(order, ",") == "id,out,size,time", "the entry's fields are written in the order the reader decodes them: action id, output id, size, time (writer: %v)", order)
+		// Truncate only after the write succeeded
+		for _, ci := range CallsTo(putIndex, false, "os.File.Truncate") {
+			wrote := false
+			for _, w := range CallsTo(putIndex, false, "os.File.WriteString", "os.File.Write") {
+				if InstrDominates(w, ci) {
+					wrote = true
+				}
+			}
+			c.Check(FuncKey(putIndex)+"::truncate-only-after-write", ci.Pos(), wrote, "the index file is cut to the entry's length only after the entry was written (an equal rewrite never shortens the file, not even temporarily)")
 		}
 	})
 }
